@@ -18,21 +18,48 @@ use std::sync::Arc;
 fn base_name(t: &GType) -> String { let mut b = &t.base; loop { match b { BaseType::Named(n) => return n.to_string(), BaseType::List(i) => b = &i.base } } }
 fn is_list(t: &GType) -> bool { matches!(t.base, BaseType::List(_)) }
 
-fn run(meta: &Schema, target: &Schema, q: &str) -> Vec<BTreeMap<Arc<str>, FieldValue>> {
+fn run(meta: &Schema, target: &Schema, q: &str) -> Vec<BTreeMap<Arc<str>, FieldValue>> { run_with(meta, target, q, BTreeMap::new()) }
+fn run_with(meta: &Schema, target: &Schema, q: &str, args: BTreeMap<Arc<str>, FieldValue>) -> Vec<BTreeMap<Arc<str>, FieldValue>> {
     let adapter = Arc::new(SchemaAdapter::new(target));
-    let iq = crate::frontend::parse(meta, q).expect("introspection query compiles");
-    interpret_ir(adapter, iq, Arc::new(BTreeMap::new())).expect("no arguments").collect()
+    let iq = crate::frontend::parse(meta, q).unwrap_or_else(|e| panic!("introspection query does not compile: {e}: {q}"));
+    interpret_ir(adapter, iq, Arc::new(args)).expect("arguments accepted").collect()
 }
+/// JSON text of a default value as written in the schema document (spec side, written independently of the adapter)
+fn json_of(v: &async_graphql_value::ConstValue) -> String {
+    use async_graphql_value::ConstValue as C;
+    match v {
+        C::Null => "null".into(), C::Boolean(b) => b.to_string(), C::Number(n) => n.to_string(), C::String(x) => format!("{x:?}"),
+        C::List(xs) => format!("[{}]", xs.iter().map(json_of).collect::<Vec<_>>().join(",")),
+        other => format!("<unsupported {other}>"),
+    }
+}
+fn param_spec(a: &async_graphql_parser::types::InputValueDefinition) -> String {
+    let default = match &a.default_value { Some(v) => json_of(&v.node), None => if a.ty.node.nullable { "null".into() } else { "<null>".into() } };
+    format!("{}:{}={}", a.name.node, a.ty.node, default)
+}
+const EXTRA_SCHEMA: &str = r#"schema { query: RootSchemaQuery }
+directive @filter(op: String!, value: [String!]) repeatable on FIELD | INLINE_FRAGMENT
+directive @tag(name: String) repeatable on FIELD
+directive @output(name: String) repeatable on FIELD
+directive @optional on FIELD
+directive @recurse(depth: Int!) on FIELD
+directive @fold on FIELD
+directive @transform(op: String!) repeatable on FIELD
+type RootSchemaQuery { Item(limit: Int = 7, name: String = "abc", strict: Boolean = true, ratio: Float = 1.5, ids: [Int] = [1, null], req: Int!, opt: String): [Item!]  Special(only: [Boolean!]! = [true, false]): Special! }
+interface Item { name: String  size: Int!  tags: [String!]!  related(limit: Int! = 3, prefix: String, x: Int = 7, s: String = "abc", l: [Int] = [1, null], n: Int = null): [Item!]  parent(kind: String! = "x", depth: Int!): Item  plain: Item! }
+type Plain implements Item { name: String  size: Int!  tags: [String!]!  related(limit: Int! = 3, prefix: String, x: Int = 7, s: String = "abc", l: [Int] = [1, null], n: Int = null): [Item!]  parent(kind: String! = "x", depth: Int!): Item  plain: Item! }
+type Special implements Item { name: String  size: Int!  tags: [String!]!  related(limit: Int! = 3, prefix: String, x: Int = 7, s: String = "abc", l: [Int] = [1, null], n: Int = null): [Item!]  parent(kind: String! = "x", depth: Int!): Special  plain: Item!  extra: Float  flags(only: [Boolean!] = [true], ratio: Float = 2.5, f: Float! = 0.5): [Special!]! }
+"#;
 fn s(v: &FieldValue) -> String { match v { FieldValue::String(x) => x.to_string(), FieldValue::Null => "<null>".into(), other => format!("{other:?}") } }
 fn list(v: &FieldValue) -> Vec<String> { v.as_slice().expect("list output").iter().map(s).collect() }
 
-// @grid c20_grid_introspection_matches_schema tier=quick bound="the repository's 5 base schemas, its valid-schema corpus and the introspection schema itself"
+// @grid c20_grid_introspection_matches_schema tier=quick bound="the repository's 5 base schemas, its valid-schema corpus, the introspection schema itself and a schema with every kind of parameter default; 10 query templates x name filters (=, !=, has_prefix, not_has_substring, one_of, not_one_of) x values incl. the root query type's name"
 // @ob the introspection adapter reports exactly the schema's vertex types with their interface flags and implements relations, each type's properties with their types, each type's edges with target, cardinality (to_many = list-typed, at_least_one = non-null) and parameters with type and default, and the entrypoints; and it passes the adapter invariant checker
 pub(crate) fn c20_grid_introspection_matches_schema() {
     let mut n = 0u64;
     let mut failures = BTreeSet::new();
     let meta = Schema::parse(SchemaAdapter::schema_text()).expect("meta schema");
-    let mut docs: Vec<(String, String)> = vec![("<introspection schema>".into(), SchemaAdapter::schema_text().to_string())];
+    let mut docs: Vec<(String, String)> = vec![("<introspection schema>".into(), SchemaAdapter::schema_text().to_string()), ("<parameters with defaults>".into(), EXTRA_SCHEMA.to_string())];
     for dir in ["test_data/schemas", "test_data/tests/valid_schemas"] {
         let mut names: Vec<String> = std::fs::read_dir(dir).unwrap().filter_map(|e| e.ok()).map(|e| e.file_name().to_string_lossy().to_string()).filter(|n| n.ends_with(".graphql")).collect();
         names.sort();
@@ -59,7 +86,7 @@ pub(crate) fn c20_grid_introspection_matches_schema() {
             for f in fields {
                 let ty = &f.node.ty.node;
                 if schema.vertex_types.contains_key(base_name(ty).as_str()) {
-                    let params: Vec<String> = f.node.arguments.iter().map(|a| format!("{}:{}", a.node.name.node, a.node.ty.node)).collect();
+                    let params: Vec<String> = f.node.arguments.iter().map(|a| param_spec(&a.node)).collect();
                     want_edges.insert(format!("{tname}.{} -> {} to_many={} at_least_one={} params={:?}", f.node.name.node, base_name(ty), is_list(ty), !ty.nullable, params));
                 } else {
                     want_props.insert(format!("{tname}.{}: {}", f.node.name.node, ty));
@@ -68,13 +95,13 @@ pub(crate) fn c20_grid_introspection_matches_schema() {
         }
         let mut want_entry = BTreeSet::new();
         if let TypeKind::Object(o) = &schema.vertex_types[root.as_str()].kind {
-            for f in &o.fields { want_entry.insert(format!("{} -> {} to_many={}", f.node.name.node, base_name(&f.node.ty.node), is_list(&f.node.ty.node))); }
+            for f in &o.fields { want_entry.insert(format!("{} -> {} to_many={} at_least_one={} params={:?}", f.node.name.node, base_name(&f.node.ty.node), is_list(&f.node.ty.node), !f.node.ty.node.nullable, f.node.arguments.iter().map(|a| param_spec(&a.node)).collect::<Vec<_>>())); }
         }
         // ---- what introspection reports
         let rows = run(&meta, &schema, r#"{ VertexType { name @output is_interface @output
             implements @fold { name @output(name: "impl") }
             property @fold { name @output(name: "pname") type @output(name: "ptype") }
-            edge @fold { name @output(name: "ename") to_many @output at_least_one @output target { name @output(name: "etarget") } parameter @fold { name @output(name: "prm") type @output(name: "prmtype") } } } }"#);
+            edge @fold { name @output(name: "ename") to_many @output at_least_one @output target { name @output(name: "etarget") } parameter @fold { name @output(name: "prm") type @output(name: "prmtype") default @output(name: "prmdefault") } } } }"#);
         let (mut got_types, mut got_props, mut got_edges, mut got_impl) = (BTreeSet::new(), BTreeSet::new(), BTreeSet::new(), BTreeSet::new());
         for r in &rows {
             let g = |k: &str| r[&Arc::from(k) as &Arc<str>].clone();
@@ -83,14 +110,65 @@ pub(crate) fn c20_grid_introspection_matches_schema() {
             for i in list(&g("impl")) { got_impl.insert(format!("{tname} implements {i}")); }
             for (p, t) in list(&g("pname")).into_iter().zip(list(&g("ptype"))) { got_props.insert(format!("{tname}.{p}: {t}")); }
             let (en, tm, alo, et) = (list(&g("ename")), g("to_many"), g("at_least_one"), list(&g("etarget")));
-            let prm = g("prm"); let prmtype = g("prmtype");
+            let prm = g("prm"); let prmtype = g("prmtype"); let prmdefault = g("prmdefault");
             for (i, e) in en.iter().enumerate() {
-                let params: Vec<String> = list(&prm.as_slice().unwrap()[i]).into_iter().zip(list(&prmtype.as_slice().unwrap()[i])).map(|(a, b)| format!("{a}:{b}")).collect();
+                let params: Vec<String> = list(&prm.as_slice().unwrap()[i]).into_iter().zip(list(&prmtype.as_slice().unwrap()[i])).zip(list(&prmdefault.as_slice().unwrap()[i])).map(|((a, b), c)| format!("{a}:{b}={c}")).collect();
                 got_edges.insert(format!("{tname}.{e} -> {} to_many={} at_least_one={} params={:?}", et[i], tm.as_slice().unwrap()[i] == FieldValue::Boolean(true), alo.as_slice().unwrap()[i] == FieldValue::Boolean(true), params));
             }
         }
-        let erows = run(&meta, &schema, r#"{ Entrypoint { name @output to_many @output target { name @output(name: "t") } } }"#);
-        let got_entry: BTreeSet<String> = erows.iter().map(|r| format!("{} -> {} to_many={}", s(&r[&Arc::from("name") as &Arc<str>]), s(&r[&Arc::from("t") as &Arc<str>]), r[&Arc::from("to_many") as &Arc<str>] == FieldValue::Boolean(true))).collect();
+        let erows = run(&meta, &schema, r#"{ Entrypoint { name @output to_many @output at_least_one @output target { name @output(name: "t") } parameter @fold { name @output(name: "prm") type @output(name: "prmtype") default @output(name: "prmdefault") } } }"#);
+        let got_entry: BTreeSet<String> = erows.iter().map(|r| {
+            let g = |k: &str| r[&Arc::from(k) as &Arc<str>].clone();
+            let params: Vec<String> = list(&g("prm")).into_iter().zip(list(&g("prmtype"))).zip(list(&g("prmdefault"))).map(|((a, b), c)| format!("{a}:{b}={c}")).collect();
+            format!("{} -> {} to_many={} at_least_one={} params={:?}", s(&g("name")), s(&g("t")), g("to_many") == FieldValue::Boolean(true), g("at_least_one") == FieldValue::Boolean(true), params)
+        }).collect();
+        // the same entrypoints through the Schema vertex
+        let srows = run(&meta, &schema, r#"{ Schema { entrypoint { name @output } } }"#);
+        let via_schema: BTreeSet<String> = srows.iter().map(|r| s(&r[&Arc::from("name") as &Arc<str>])).collect();
+        let direct: BTreeSet<String> = erows.iter().map(|r| s(&r[&Arc::from("name") as &Arc<str>])).collect();
+        if via_schema != direct { failures.insert(format!("{label}: Schema.entrypoint and Entrypoint disagree")); }
+        let vrows = run(&meta, &schema, r#"{ Schema { vertex_type { name @output } } }"#);
+        let via_schema: BTreeSet<String> = vrows.iter().map(|r| s(&r[&Arc::from("name") as &Arc<str>])).collect();
+        let direct: BTreeSet<String> = rows.iter().map(|r| s(&r[&Arc::from("name") as &Arc<str>])).collect();
+        if via_schema != direct { failures.insert(format!("{label}: Schema.vertex_type and VertexType disagree")); }
+        // filters on names must only select among what the unfiltered query reports, whatever hints the adapter takes from them
+        let templates = [
+            r#"{ VertexType { name @output FILTER } }"#, r#"{ Schema { vertex_type { name @output FILTER } } }"#,
+            r#"{ Entrypoint { name @output FILTER } }"#, r#"{ Schema { entrypoint { name @output FILTER } } }"#,
+            r#"{ VertexType { name @output(name: "t") edge { name @output FILTER } } }"#, r#"{ VertexType { name @output(name: "t") property { name @output FILTER } } }"#,
+            r#"{ VertexType { name @output(name: "t") implements { name @output FILTER } } }"#, r#"{ VertexType { name @output(name: "t") implementer { name @output FILTER } } }"#,
+            r#"{ VertexType { name @output(name: "t") edge { name @output(name: "e") target { name @output FILTER } } } }"#,
+            r#"{ VertexType { name @output FILTER edge @fold { name @output(name: "e") } } }"#,
+        ];
+        for template in templates {
+            let baseline = run(&meta, &schema, &template.replace("FILTER", ""));
+            let mut values: Vec<String> = baseline.iter().map(|r| s(&r[&Arc::from("name") as &Arc<str>])).collect::<BTreeSet<_>>().into_iter().take(6).collect();
+            values.push(root.clone()); values.push("Nope".into());
+            for v in &values {
+                let one = FieldValue::String(Arc::from(v.as_str()));
+                let lists = [vec![v.clone()], vec![v.clone(), root.clone()], vec![root.clone(), "Nope".into()], vec![], vec![values[0].clone(), v.clone(), root.clone()]];
+                let mut cases: Vec<(&str, FieldValue, Box<dyn Fn(&str) -> bool>)> = Vec::new();
+                let vv = v.clone(); cases.push(("=", one.clone(), Box::new(move |x| x == vv)));
+                let vv = v.clone(); cases.push(("!=", one.clone(), Box::new(move |x| x != vv)));
+                let vv = v.clone(); cases.push(("has_prefix", one.clone(), Box::new(move |x| x.starts_with(vv.as_str()))));
+                let vv = v.clone(); cases.push(("not_has_substring", one.clone(), Box::new(move |x| !x.contains(vv.as_str()))));
+                for l in lists.iter() {
+                    let fv = FieldValue::List(l.iter().map(|x| FieldValue::String(Arc::from(x.as_str()))).collect::<Vec<_>>().into());
+                    let ll = l.clone(); cases.push(("one_of", fv.clone(), Box::new(move |x| ll.iter().any(|y| y == x))));
+                    let ll = l.clone(); cases.push(("not_one_of", fv, Box::new(move |x| !ll.iter().any(|y| y == x))));
+                }
+                for (op, arg, keep) in cases {
+                    let q = template.replace("FILTER", &format!(r#"@filter(op: "{op}", value: ["$x"])"#));
+                    let mut args = BTreeMap::new(); args.insert(Arc::from("x"), arg.clone());
+                    let got = run_with(&meta, &schema, &q, args);
+                    let want: Vec<_> = baseline.iter().filter(|r| keep(&s(&r[&Arc::from("name") as &Arc<str>]))).cloned().collect();
+                    // as multisets: the order in which vertex types are reported is not part of the statement
+                    let key = |rows: &[BTreeMap<Arc<str>, FieldValue>]| { let mut k: Vec<String> = rows.iter().map(|r| format!("{r:?}")).collect(); k.sort(); k };
+                    if key(&got) != key(&want) { failures.insert(format!("{label}: filter {op} {arg:?} changes what is reported: {template}")); }
+                    n += 1;
+                }
+            }
+        }
         for (what, want, got) in [("vertex types", &want_types, &got_types), ("implements relations", &want_impl, &got_impl), ("properties", &want_props, &got_props), ("edges", &want_edges, &got_edges), ("entrypoints", &want_entry, &got_entry)] {
             if want != got {
                 let missing: Vec<&String> = want.difference(got).take(3).collect();
